@@ -212,6 +212,7 @@ pub fn trigger(name: &str, args: &Value, cfg: &Cfg, history: &[Op], finding: &Va
                 && cfg.oversampling == 1
                 && matches!(cfg.interp, crate::cfg::Interp::Cubic | crate::cfg::Interp::Quadratic)
         }
+        // the smaller FFT block has fewer points than the range calculate_cutoff was fitted for
         "fft_block_below" => {
             let limit = argf(args, "limit", 32.0) as usize;
             cfg.kind.is_fft() && {
